@@ -82,8 +82,12 @@ impl AsyncFileSystem for AsyncPhysicalFS {
             Ok(()) => Ok(()),
             Err(e) => match e.kind() {
                 ErrorKind::AlreadyExists => {
-                    let metadata = async_std::fs::metadata(&fs_path).await.unwrap();
-                    if metadata.is_dir() {
+                    // the occupant may be a dangling symlink, in which case metadata() fails
+                    let is_dir = async_std::fs::metadata(&fs_path)
+                        .await
+                        .map(|metadata| metadata.is_dir())
+                        .unwrap_or(false);
+                    if is_dir {
                         return Err(VfsError::from(VfsErrorKind::DirectoryExists));
                     }
                     Err(VfsError::from(VfsErrorKind::FileExists))
